@@ -811,27 +811,36 @@ class PhaseField(_IModel):
 
             # Invariants
             I1_e_pg = Trace(matrix_e_pg)
-            I2_e_pg = 1 / 2 * (I1_e_pg**2 - Trace(matrix_e_pg @ matrix_e_pg))
-            I3_e_pg = Det(matrix_e_pg)
+
+            # The four cases below are told apart on the deviator: computed from the invariants of
+            # the whole tensor, g and the Lode angle lose every digit as soon as two eigenvalues are
+            # (nearly) equal, which is the rule in a loaded body (uniaxial states, unloaded regions).
+            dev_e_pg = matrix_e_pg - 1 / 3 * (I1_e_pg * I_e_pg)
+            # g = I1² - 3 I2 = 1/2 ((e1-e2)² + (e1-e3)² + (e2-e3)²)
+            g_e_pg = 3 / 2 * Trace(dev_e_pg @ dev_e_pg)
+            sqrt_g_e_pg = np.sqrt(g_e_pg)
+            # e1² + e2² + e3²
+            norm2_e_pg = Trace(matrix_e_pg @ matrix_e_pg)
 
             tic.Tac("Split", "Invariants", False)
 
-            g_e_pg = I1_e_pg**2 - 3 * I2_e_pg
-            sqrt_g_e_pg = np.sqrt(g_e_pg)
+            # Eigenvalues closer than round-off can tell apart are equal: cases 4, 2 and 3 are the
+            # limits of case 1, whose projectors divide by the differences of the eigenvalues.
+            g_neq_0 = np.asarray(sqrt_g_e_pg > 1e-9 * np.sqrt(norm2_e_pg))
 
-            g_neq_0 = g_e_pg != 0
-
-            arg = 1 / 2 * (2 * I1_e_pg**3 - 9 * I1_e_pg * I2_e_pg + 27 * I3_e_pg)
+            arg = 27 / 2 * Det(dev_e_pg)
             np.divide(
                 arg,
                 g_e_pg ** (3 / 2),
                 out=arg,
                 where=g_neq_0,
             )
+            np.asarray(arg)[~g_neq_0] = 0
+            # cos(3 theta) is +-1 up to round-off with two equal eigenvalues: keep it in arccos' domain
+            arg = np.clip(arg, -1, 1)
 
             # Lode's angle such that 0 <= theta <= pi/3
-            # (with two equal eigenvalues arg is +-1 up to round-off: keep it in arccos' domain)
-            theta = 1 / 3 * np.arccos(np.clip(arg, -1, 1))
+            theta = 1 / 3 * np.arccos(arg)
 
             # -------------------------------------
             # Init eigenvalues an eigenprojectors for case 4
@@ -851,7 +860,27 @@ class PhaseField(_IModel):
 
             tic.Tac("Split", "proj case 4", False)
 
-            I_rg = 1 / 3 * ((I1_e_pg - sqrt_g_e_pg) * I_e_pg)
+            # The cases are decided per integration point (one element may mix them); the masked
+            # assignments go through plain views of the arrays.
+            arg_np = np.asarray(arg)
+            val1_np, val2_np, val3_np = (
+                np.asarray(val1_e_pg),
+                np.asarray(val2_e_pg),
+                np.asarray(val3_e_pg),
+            )
+            M1_np, M3_np = np.asarray(M1), np.asarray(M3)
+            sqrt_g_np = np.asarray(sqrt_g_e_pg)
+            mat_np = np.asarray(matrix_e_pg)
+            eye = np.eye(3)
+
+            def unit_projector_orthogonal_to(N):
+                """m ⊗ m with m a unit vector orthogonal to n, for projectors N = n ⊗ n (n, 3, 3)."""
+                idx = np.arange(N.shape[0])
+                k = np.argmax(np.diagonal(N, axis1=-2, axis2=-1), axis=-1)
+                n = N[idx, :, k] / np.sqrt(N[idx, k, k])[:, None]
+                m = np.cross(n, eye[np.argmin(np.abs(n), axis=-1)])
+                m /= np.linalg.norm(m, axis=-1, keepdims=True)
+                return m[:, :, None] * m[:, None, :]
 
             # -------------------------------------
             # 2. Two maximum eigenvalues
@@ -859,18 +888,21 @@ class PhaseField(_IModel):
             # arg = -1
             # -------------------------------------
 
-            test2 = g_neq_0 & (theta == np.pi / 3)
+            case2 = g_neq_0 & (arg_np <= -1 + 1e-10)
 
-            case2 = np.unique(np.where(test2)[0])
+            if case2.any():
+                sqrt_g = sqrt_g_np[case2]
+                val1_np[case2] += -2 / 3 * sqrt_g
+                val2_np[case2] += 1 / 3 * sqrt_g
+                val3_np[case2] += 1 / 3 * sqrt_g
 
-            if len(case2) > 0:
-                val1_e_pg[case2] += -2 / 3 * sqrt_g_e_pg[case2]
-                val2_e_pg[case2] += 1 / 3 * sqrt_g_e_pg[case2]
-                val3_e_pg[case2] += 1 / 3 * sqrt_g_e_pg[case2]
-
-                M1[case2] = (g_e_pg ** (-1 / 2) * (I_rg - matrix_e_pg))[case2]
-                # M2[case2] = 1 / 2 * (I_e_pg - M1)[case2]
-                M3[case2] = 1 / 2 * (I_e_pg - M1)[case2]
+                # 𝜖2 = 𝜖3 = (I1 + √g) / 3
+                M1_np[case2] = (
+                    val2_np[case2][:, None, None] * eye - mat_np[case2]
+                ) / sqrt_g[:, None, None]
+                # 𝜖2 = 𝜖3: any orthonormal pair of the eigenplane does, as long as M2 and M3 are the
+                # rank-one projectors mi ⊗ mi the spectral decomposition is written with
+                M3_np[case2] = unit_projector_orthogonal_to(M1_np[case2])
 
                 tic.Tac("Split", "proj case 2", False)
 
@@ -880,18 +912,20 @@ class PhaseField(_IModel):
             # arg = 1
             # -------------------------------------
 
-            test3 = g_neq_0 & (theta == 0)
+            case3 = g_neq_0 & (arg_np >= 1 - 1e-10)
 
-            case3 = np.unique(np.where(test3)[0])
+            if case3.any():
+                sqrt_g = sqrt_g_np[case3]
+                val1_np[case3] += -1 / 3 * sqrt_g
+                val2_np[case3] += -1 / 3 * sqrt_g
+                val3_np[case3] += 2 / 3 * sqrt_g
 
-            if len(case3) > 0:
-                val1_e_pg[case3] += -1 / 3 * sqrt_g_e_pg[case3]
-                val2_e_pg[case3] += -1 / 3 * sqrt_g_e_pg[case3]
-                val3_e_pg[case3] += 2 / 3 * sqrt_g_e_pg[case3]
-
-                M3[case3] = (g_e_pg ** (-1 / 2) * (matrix_e_pg - I_rg))[case3]
-                M1[case3] = 1 / 2 * (I_e_pg - M3)[case3]
-                # M2[case3] = 1 / 2 * (I_e_pg - M3)[case3]
+                # 𝜖1 = 𝜖2 = (I1 - √g) / 3
+                M3_np[case3] = (
+                    mat_np[case3] - val1_np[case3][:, None, None] * eye
+                ) / sqrt_g[:, None, None]
+                # 𝜖1 = 𝜖2: same remark as in case 2
+                M1_np[case3] = unit_projector_orthogonal_to(M3_np[case3])
 
                 tic.Tac("Split", "proj case 3", False)
 
@@ -900,35 +934,29 @@ class PhaseField(_IModel):
             # 𝜖1 < 𝜖2 < 𝜖3 ⇐⇒ 𝑔 ≠ 0, 𝜃 ≠ 0, 𝜃 ≠ 𝜋∕3.
             # -------------------------------------
 
-            test1 = g_neq_0 & (theta != 0) & (theta != np.pi / 3)
+            case1 = g_neq_0 & ~case2 & ~case3
 
-            case1 = np.setdiff1d(
-                np.unique(np.where(test1)[0]), np.union1d(case2, case3)
-            )
-
-            if len(case1) > 0:
-                val1_e_pg[case1] += (
-                    2 / 3 * (sqrt_g_e_pg * np.cos(2 * np.pi / 3 + theta))[case1]
-                )
-                val2_e_pg[case1] += (
-                    2 / 3 * (sqrt_g_e_pg * np.cos(2 * np.pi / 3 - theta))[case1]
-                )
-                val3_e_pg[case1] += 2 / 3 * (sqrt_g_e_pg * np.cos(theta))[case1]
+            if case1.any():
+                sqrt_g = sqrt_g_np[case1]
+                theta_c1 = np.asarray(theta)[case1]
+                val1_np[case1] += 2 / 3 * sqrt_g * np.cos(2 * np.pi / 3 + theta_c1)
+                val2_np[case1] += 2 / 3 * sqrt_g * np.cos(2 * np.pi / 3 - theta_c1)
+                val3_np[case1] += 2 / 3 * sqrt_g * np.cos(theta_c1)
 
                 # Compute projectors only on the case1 subset — avoids full-(Ne,nPg) matmuls
-                v1_c1 = val1_e_pg[case1]
-                v2_c1 = val2_e_pg[case1]
-                v3_c1 = val3_e_pg[case1]
-                mat_c1 = matrix_e_pg[case1]
+                v1_c1 = val1_np[case1][:, None, None]
+                v2_c1 = val2_np[case1][:, None, None]
+                v3_c1 = val3_np[case1][:, None, None]
+                mat_c1 = mat_np[case1]
 
-                M1[case1] = (
-                    (mat_c1 - v2_c1 * np.eye(3))
-                    @ (mat_c1 - v3_c1 * np.eye(3))
+                M1_np[case1] = (
+                    (mat_c1 - v2_c1 * eye)
+                    @ (mat_c1 - v3_c1 * eye)
                     / ((v1_c1 - v2_c1) * (v1_c1 - v3_c1))
                 )
-                M3[case1] = (
-                    (mat_c1 - v1_c1 * np.eye(3))
-                    @ (mat_c1 - v2_c1 * np.eye(3))
+                M3_np[case1] = (
+                    (mat_c1 - v1_c1 * eye)
+                    @ (mat_c1 - v2_c1 * eye)
                     / ((v3_c1 - v1_c1) * (v3_c1 - v2_c1))
                 )
 
